@@ -1340,23 +1340,35 @@ func (ss *ServerSession) handleRequestInner(sc *ServerConn, req *base.Request) (
 		})
 
 		if res.StatusCode == base.StatusOK {
-			ss.propsMutex.Lock()
-			ss.state = ServerSessionStateRecord
-			ss.propsMutex.Unlock()
-
 			ss.udpLastPacketTime.Store(ss.s.timeNow().Unix())
 
 			ss.timeDecoder = &rtptime.GlobalDecoder{}
 			ss.timeDecoder.Initialize()
 
+			// start medias before changing state, in order to
+			// leave the session untouched in case of errors.
+			var started []*serverSessionMedia
+
 			for _, sm := range ss.setuppedMedias {
 				err = sm.start()
 				if err != nil {
+					for _, sm2 := range started {
+						sm2.stop()
+					}
+					ss.timeDecoder = nil
+					ss.destroyWriter()
+
 					return &base.Response{
 						StatusCode: base.StatusBadRequest,
 					}, err
 				}
+
+				started = append(started, sm)
 			}
+
+			ss.propsMutex.Lock()
+			ss.state = ServerSessionStateRecord
+			ss.propsMutex.Unlock()
 
 			if ss.setuppedTransport.Protocol == ProtocolTCP {
 				ss.tcpFrame = &base.InterleavedFrame{}
